@@ -18,6 +18,7 @@ CONSTANTS B = 4
   MaxTotal = 2
   MaxDepth = 2
   Wide = FALSE
+  WideSpaces = {}
   NotdefOn = TRUE
   MaxRect = 0
 INVARIANTS LookupOK
